@@ -16,7 +16,7 @@ pub fn property() -> Property {
     Property {
         id: "C15",
         level: "exploration",
-        rule: "Forms with 0..6 text fields and 0..5 files (incl. the empty form) are built, prepared and sent; data over all byte values with CR, LF, dashes, look-alike delimiter lines (CRLF + '--' + 16 alphanumerics, the boundary of the previous request of the same shard, well-known fixed boundaries); part sizes 0..200 KiB chosen so that header/data/delimiter edges fall on every offset modulo 8 192 (the copy buffer) over the run (bitset of 8 192 residues recorded; all must occur in thorough); names/filenames over printable characters without quote/CR/LF incl. UTF-8; MIME strings from a list of valid types with parameters; transfer chunking varied by short-write schedules; the request comes from attohttpc::post, from a Session with a default Content-Type, or already carries a bare / two appended Content-Type fields when the form is attached. Oracle: build/prepare/send succeed; the de-chunked body decoded by the harness's multipart decoder with the boundary from the Content-Type on the wire yields exactly the multiset of (name, filename, content type as parsed Mime, data) that was added; a proper closing delimiter with nothing after it. Non-trivial: every form; distinct = hash(parts).",
+        rule: "Forms with 0..6 text fields and 0..5 files (incl. the empty form) are built, prepared and sent; data over all byte values with CR, LF, dashes, look-alike delimiter lines (CRLF + '--' + 16 alphanumerics, the boundary of the previous request of the same shard, well-known fixed boundaries); part sizes 0..200 KiB chosen so that header/data/delimiter edges fall on every offset modulo 8 192 (the copy buffer) over the run (bitset of 8 192 residues recorded; all must occur in thorough); names/filenames over printable characters without quote/CR/LF incl. UTF-8, path separators and the EMPTY file name (which is a file name, not its absence); MIME strings from a list of valid types with parameters; transfer chunking varied by short-write schedules; the request comes from attohttpc::post, from a Session with a default Content-Type, or already carries a bare / two appended Content-Type fields when the form is attached. Oracle: build/prepare/send succeed; the de-chunked body decoded by the harness's multipart decoder with the boundary from the Content-Type on the wire yields exactly the multiset of (name, filename, content type as parsed Mime, data) that was added; a proper closing delimiter with nothing after it. Non-trivial: every form; distinct = hash(parts).",
         assumptions: &["part order is not judged (the statement says 'exactly the added parts')", "the boundary is random per request: 'does not occur in the data' is provoked with the previous boundary and fixed well-known boundaries"],
         min_nontrivial: |t| t.pick(3_000, 60_000),
         gens,
@@ -89,6 +89,10 @@ fn check_form(ctx: &mut Ctx, texts: &[TextField], files: &[FileField], faults: W
             faults.short
         )
     };
+    let empty_names = files.iter().filter(|f| f.filename.as_deref() == Some("")).count();
+    if empty_names > 0 {
+        ctx.count("files_with_an_empty_file_name", empty_names as u64);
+    }
     let mut b = MultipartBuilder::new();
     for t in texts {
         b = b.with_text(&t.name, &t.value);
@@ -262,7 +266,7 @@ fn run_form(ctx: &mut Ctx, rng: &mut Rng, _index: u64) {
                 _ if big && !crate::framework::small_mode() => rng.range(9000, 200_000),
                 _ => rng.range(0, if crate::framework::small_mode() { 2_000 } else { 20_000 }),
             };
-            FileField { name: printable(rng, 6), data: tricky_data(rng, ctx, len), filename: if rng.bool() { Some(printable(rng, 8)) } else { None }, mime: if rng.bool() { Some(*rng.pick(MIMES)) } else { None } }
+            FileField { name: printable(rng, 6), data: tricky_data(rng, ctx, len), filename: match rng.below(9) { 0 => Some(String::new()), 1..=4 => Some(printable(rng, 8)), _ => None }, mime: if rng.bool() { Some(*rng.pick(MIMES)) } else { None } }
         })
         .collect();
     let faults = c07::random_faults(rng, ctx);
